@@ -56,7 +56,8 @@ func (w *typeExprWalker) walk(x ast.Node) bool {
 		}
 		return true
 	case *ast.CallExpr:
-		// Pointer conversions require parenthesis around pointer type.
+		// Pointer, function and receive-only channel type conversions require
+		// parenthesis around the type: <-chan int(x) is <-(chan int(x)).
 		// These casts are represented as call expressions.
 		// Because it's impossible for the visitor to distinguish such
 		// "required" parenthesis, walker skips outmost parenthesis in such cases.
@@ -99,7 +100,7 @@ func (w *typeExprWalker) inspectInner(x ast.Expr) bool {
 	parens, ok := x.(*ast.ParenExpr)
 	shouldInspect := ok &&
 		typep.IsTypeExpr(w.info, parens.X) &&
-		(astp.IsStarExpr(parens.X) || astp.IsFuncType(parens.X))
+		(astp.IsStarExpr(parens.X) || astp.IsFuncType(parens.X) || isRecvChanType(parens.X))
 	if shouldInspect {
 		ast.Inspect(parens.X, w.walk)
 		return false
@@ -116,4 +117,9 @@ func (w *typeExprWalker) walkSignature(typ *ast.FuncType) {
 			ast.Inspect(p.Type, w.walk)
 		}
 	}
+}
+
+func isRecvChanType(x ast.Expr) bool {
+	typ, ok := x.(*ast.ChanType)
+	return ok && typ.Dir == ast.RECV
 }
